@@ -35,6 +35,10 @@ func isWindowsAbs(path string) (b bool) {
 	if l == 0 {
 		return false
 	}
+	// a UNC volume name (\\server\share) is absolute by itself, as in path/filepath on Windows
+	if isSlash(path[0]) && isSlash(path[1]) {
+		return true
+	}
 	path = path[l:]
 	if path == "" {
 		return false
